@@ -3,6 +3,7 @@ package rules
 import (
 	"fmt"
 	"go/ast"
+	"go/constant"
 	"go/token"
 	"go/types"
 	"golang.org/x/tools/go/ssa"
@@ -25,8 +26,11 @@ func propC11(c *Ctx) {
 	c.ruleC11CursorSteps("C11-CURSOR-STEPS")
 	c.ruleC11Close()
 	c.ruleC10CopyReset() // the paste pass re-runs the same context resolution on copies
+	c.ruleOpenForEveryKind("C11-OPEN-FOR-EVERY-KIND")
+	c.rulePlaceWhenComplete("C11-PLACE-WHEN-COMPLETE")
 	if m := c.E1Base(); m != nil {
 		c.ruleC11Paren(m)
+		c.ruleOpenTransparent(m, "C11-OPEN-TRANSPARENT")
 	}
 }
 
@@ -831,6 +835,219 @@ func (c *Ctx) ruleC11Paren(m *scanfsm.Machine) {
 			r.Ok("C11-PAREN-EVENTS", key, fmt.Sprintf("state %s accepts only blanks, line ends, the end of the file and comments", s.next), c.pos(m.Pos[s.st]))
 		} else {
 			r.Bad("C11-PAREN-EVENTS", key, fmt.Sprintf("after the parenthesis state %s also accepts %s", s.next, bad), c.pos(m.Pos[s.st]))
+		}
+	}
+}
+
+// ---------- "(" is a matter of layout: the handler of the opening parenthesis treats every directive kind alike ----------
+
+// ruleOpenForEveryKind: the scanner announces "(" after any directive; the document with the parentheses and the one
+// without describe the same API. The core's handler of the opening parenthesis may therefore refuse it for reasons of
+// layout only (no directive yet, already opened), never for the kind of the directive. Decided by running the handler
+// abstractly once per constant of the directive enumeration, with every Type() of a directive bound to that constant:
+// the set of outcomes (success, or which error expression) must be the same for all kinds.
+func (c *Ctx) ruleOpenForEveryKind(rule string) {
+	r := c.R
+	r.Rule(rule, "the core's handler of the opening parenthesis (processContextBegin) run abstractly once per directive kind, with every Type() of a directive bound to the kind: the set of outcomes (nil, or which error) is the same for every kind - parentheses are layout, and a kind that may not be followed by one is a document that builds in the implicit layout and fails in the explicit one", 1)
+	h := c.fn("core", "JApiCore.processContextBegin")
+	if h == nil {
+		r.Undecided(rule, "anchor", "handler of the opening parenthesis not found", "")
+		return
+	}
+	enumT := c.directiveEnumType()
+	if enumT == nil {
+		r.Undecided(rule, "anchor", "directive.Enumeration not found", "")
+		return
+	}
+	consts := enumConstants(enumT)
+	if len(consts) < 20 {
+		r.Undecided(rule, "enumeration", fmt.Sprintf("%d constants of the directive enumeration found", len(consts)), "")
+		return
+	}
+	outcomeOf := func(k *types.Const) string {
+		env := &constEnv{c: c, vars: map[types.Object]constant.Value{}}
+		env.leaf = func(f *Fn, e ast.Expr) (constant.Value, bool) {
+			call, ok := e.(*ast.CallExpr)
+			if !ok || len(call.Args) != 0 {
+				return nil, false
+			}
+			if tv, has := f.Pkg.TypesInfo.Types[call]; has && tv.Type != nil && types.Identical(tv.Type, enumT) {
+				if cal := callee(f.Pkg, call); cal != nil && cal.Type().(*types.Signature).Recv() != nil {
+					return k.Val(), true
+				}
+			}
+			return nil, false
+		}
+		env.retLabel = func(f *Fn, e ast.Expr) string {
+			if isNil(f.Pkg, e) {
+				return "nil"
+			}
+			return "error " + exprString(e)
+		}
+		outs := map[string]bool{}
+		env.evalBody(h, h.Decl.Body.List, outs, 0)
+		var ks []string
+		for o := range outs {
+			ks = append(ks, o)
+		}
+		sort.Strings(ks)
+		return strings.Join(ks, " | ")
+	}
+	groups := map[string][]string{}
+	for _, k := range consts {
+		o := outcomeOf(k)
+		groups[o] = append(groups[o], k.Name())
+	}
+	if len(groups) == 1 {
+		for o := range groups {
+			r.Ok(rule, h.Name(), fmt.Sprintf("the same outcomes for all %d kinds: %s", len(consts), o), c.pos(h.Decl.Pos()))
+		}
+		return
+	}
+	// the largest group is the norm, the others deviate
+	var norm string
+	for o, ks := range groups {
+		if norm == "" || len(ks) > len(groups[norm]) || (len(ks) == len(groups[norm]) && o < norm) {
+			norm = o
+		}
+	}
+	var os []string
+	for o := range groups {
+		if o != norm {
+			os = append(os, o)
+		}
+	}
+	sort.Strings(os)
+	for _, o := range os {
+		ks := groups[o]
+		sort.Strings(ks)
+		r.Bad(rule, h.Name()+" | kinds "+strings.Join(ks, ","), fmt.Sprintf("after a directive of these kinds the opening parenthesis has the outcomes {%s}, after the other %d kinds {%s}: the explicit layout of such a directive does not build like the implicit one", o, len(groups[norm]), norm), c.pos(h.Decl.Pos()))
+	}
+}
+
+// directiveEnumType: the named type directive.Enumeration.
+func (c *Ctx) directiveEnumType() types.Type {
+	pk := c.P.Pkg("directive")
+	if pk == nil {
+		return nil
+	}
+	if tn, ok := pk.Types.Scope().Lookup("Enumeration").(*types.TypeName); ok {
+		return tn.Type()
+	}
+	return nil
+}
+
+// ---------- a directive is placed when it is complete ----------
+
+// rulePlaceWhenComplete: a directive is made of several lexemes (keyword, parameters, annotation, body, "("). The
+// context resolution places it in the tree when the NEXT directive begins, at ")" or at the end of the input - not
+// earlier: an opening parenthesis may still follow a body, and it belongs to the directive that is pending. The lexeme
+// dispatch (the switch over lexeme.Type()) gives the handler of every lexeme kind; the handlers of the kinds that can
+// be followed by more lexemes of the same directive must not reach the placement function.
+func (c *Ctx) rulePlaceWhenComplete(rule string) {
+	r := c.R
+	r.Rule(rule, "the function that hands the pending directive to processContext (processCurrentDirective) is reached, in the call graph of package core, from the lexeme dispatch only through the handlers of Keyword and of ')' (and from the end-of-file and INCLUDE paths): the handlers of Parameter, Annotation, the body lexemes and '(' never place the directive, because more lexemes of the same directive may follow (a '(' after a body)", 4)
+	place := c.fn("core", "JApiCore.processCurrentDirective")
+	pc := c.P.LookupFunc("core", "JApiCore.processContext")
+	if place == nil && pc != nil {
+		// the function that calls processContext with the pending directive (a field of the core)
+		for _, f := range c.libFns() {
+			for _, call := range callsIn(f.Pkg, f.Decl.Body, pc) {
+				if len(call.Args) >= 1 && fieldSel(f.Pkg, call.Args[0]) != nil {
+					place = f
+				}
+			}
+		}
+	}
+	pkc := c.P.Pkg("core")
+	if place == nil || pkc == nil {
+		r.Undecided(rule, "anchor", "placement function not found", "")
+		return
+	}
+	// the dispatch: a switch over <lexeme>.Type() whose cases are lexeme-kind constants of package scanner
+	type arm struct {
+		kinds []string
+		body  []ast.Stmt
+	}
+	var arms []arm
+	var disp *Fn
+	for _, f := range c.libFns() {
+		if f.Pkg != pkc {
+			continue
+		}
+		ast.Inspect(f.Decl.Body, func(n ast.Node) bool {
+			sw, ok := n.(*ast.SwitchStmt)
+			if !ok || sw.Tag == nil || disp != nil {
+				return true
+			}
+			var as []arm
+			kinds := 0
+			for _, cl := range sw.Body.List {
+				cc := cl.(*ast.CaseClause)
+				a := arm{body: cc.Body}
+				for _, e := range cc.List {
+					if k := constObj(f.Pkg, e); k != nil && k.Pkg() != nil && strings.HasSuffix(k.Pkg().Path(), "/scanner") && namedType(k.Type()) == prog.ModulePath+"/scanner.LexemeType" {
+						a.kinds = append(a.kinds, k.Name())
+						kinds++
+					}
+				}
+				if len(a.kinds) > 0 {
+					as = append(as, a)
+				}
+			}
+			if kinds >= 6 {
+				arms, disp = as, f
+			}
+			return true
+		})
+	}
+	if disp == nil {
+		r.Undecided(rule, "dispatch", "no switch over the lexeme kinds found in package core", "")
+		return
+	}
+	mayPlace := map[string]bool{"Keyword": true, "ContextExplicitClosing": true}
+	reaches := func(body []ast.Stmt) (string, bool) {
+		for _, st := range body {
+			found := ""
+			ast.Inspect(st, func(n ast.Node) bool {
+				call, ok := n.(*ast.CallExpr)
+				if !ok || found != "" {
+					return true
+				}
+				g := c.fnOf(callee(disp.Pkg, call))
+				if g == nil || g.Pkg != pkc {
+					return true
+				}
+				for _, h := range c.reachableInPkg(g) {
+					if h.Obj == place.Obj {
+						found = g.Name()
+					}
+				}
+				return true
+			})
+			if found != "" {
+				return found, true
+			}
+		}
+		return "", false
+	}
+	for _, a := range arms {
+		sort.Strings(a.kinds)
+		key := disp.Name() + " | case " + strings.Join(a.kinds, ",")
+		via, does := reaches(a.body)
+		allowed := true
+		for _, k := range a.kinds {
+			if !mayPlace[k] {
+				allowed = false
+			}
+		}
+		switch {
+		case does && !allowed:
+			r.Bad(rule, key, "the handler of this lexeme ("+via+") reaches "+place.Name()+": the pending directive is placed in the tree although more of its lexemes may follow; an opening parenthesis after it no longer finds its directive, and the context errors of the following directives change", c.pos(a.body[0].Pos()))
+		case does:
+			r.Ok(rule, key, "places the pending directive (via "+via+"): a new directive begins or the context closes", c.pos(a.body[0].Pos()))
+		default:
+			r.Ok(rule, key, "does not place the pending directive", c.pos(a.body[0].Pos()))
 		}
 	}
 }
